@@ -7,6 +7,12 @@ UNITS = ("leader", "volume", "image10s", "image11s")
 
 def run(ses):
     records.check_units(ses, UNITS, ["deps", "blank", "wf", "table"])  # table: blank => absent / NaN / -1 exactly as specified, nothing derived
+    # bounded, on the real readers: files whose spare / blank / reserved areas hold random content of their DECLARED class
+    # (pinned declarations: raw bytes 0..255 where the format says bytes, text where it says text) decode to the contract's
+    # values, which mention no spare byte - and decoding them does not raise
+    from props import analyses
+
+    analyses.bounded_tables(ses, UNITS, 16 if ses.tier == "quick" else 300)
     ses.trust(*TRUST)
     ses.assume("spare / blank / reserved areas hold content of their declared character class (ASCII text, numeric text "
                "for numeric spares): decoding them does not raise",
